@@ -233,6 +233,55 @@ fn map_noncontiguous(which: usize) {
     core::mem::forget(d);
 }
 
+/// A digraph built from caller-supplied rows (heads unconstrained below 8,
+/// self-loops possible) either panics in `from` or is safe to operate on.
+fn list_from_rows_then_ops() {
+    use crate::cx::BTreeSet;
+    use graaf::{
+        AdjacencyList,
+        DegreeSequence,
+        IndegreeSequence,
+    };
+
+    cx::set_vcap(8);
+    cx::set_parallelism(1);
+
+    let mut rows: [BTreeSet<usize>; 2] = [BTreeSet::new(), BTreeSet::new()];
+    let mut bad = false;
+
+    for u in 0..2 {
+        for v in 0..8 {
+            if nd::bool() {
+                let _ = rows[u].insert(v);
+
+                if v == u || v >= 2 {
+                    bad = true;
+                }
+            }
+        }
+    }
+
+    kani::cover!(bad, "WITNESS: a row with a self-loop or an out-of-range head");
+
+    let d = AdjacencyList::from(rows);
+
+    match nd::below(3) {
+        0 => core::mem::forget(d.converse()),
+        1 => {
+            for x in d.indegree_sequence() {
+                assert!(x <= 2, "an indegree is at most the order");
+            }
+        }
+        _ => {
+            for x in d.degree_sequence() {
+                assert!(x <= 4, "a degree is at most twice the order");
+            }
+        }
+    }
+
+    core::mem::forget(d);
+}
+
 macro_rules! trav {
     ($name:ident, $k:expr) => {
         #[cfg_attr(kani, kani::proof)]
@@ -360,4 +409,12 @@ pub fn c13_map_noncontiguous_is_semicomplete() {
 #[cfg_attr(kani, kani::unwind(10))]
 pub fn c13_map_noncontiguous_is_tournament() {
     map_noncontiguous(2);
+}
+
+// AdjacencyList::from(rows with unconstrained heads) followed by converse / indegree_sequence / degree_sequence.
+// @verif prop=C13 tier=quick fl=f1 role=from-rows-then-ops/adjacency-list t=1200 mem=12 miri=1 allow=panic
+#[cfg_attr(kani, kani::proof)]
+#[cfg_attr(kani, kani::unwind(10))]
+pub fn c13_list_from_rows_then_ops() {
+    list_from_rows_then_ops();
 }
